@@ -277,6 +277,13 @@ func (a *AnySchema) checkAndConvert(data any) (any, error) {
 			if err != nil {
 				return nil, ConstraintErrorAddPathSegment(err, fmt.Sprintf("[%v]", key))
 			}
+			if _, duplicate := result[key]; duplicate {
+				// Two raw keys (for example int(1) and int64(1)) denote the same key; the survivor would
+				// depend on the iteration order of the input.
+				return nil, ConstraintErrorAddPathSegment(&ConstraintError{
+					Message: fmt.Sprintf("Duplicate key: more than one key of the input converts to %v", key),
+				}, fmt.Sprintf("{%v}", k))
+			}
 			result[key] = value
 		}
 		return result, nil
